@@ -359,10 +359,10 @@ MUTANTS = [
     Mutant('cache-plain-dict', FA, "        self.item_cache = CaseInsensitiveDict()", "        self.item_cache = {}", expect=('R3', 'item_cache')),
     Mutant('use-name-raw', FA, "symbol_names = tuple(str(smbl.type.use_name or smbl).lower() for smbl in node.symbols)",
            "symbol_names = tuple(smbl.type.use_name or smbl.name.lower() for smbl in node.symbols)", expect=('R4', 'symbol_names')),
-    Mutant('suffix-call-name-raw', 'loki/transformations/dependency.py', "            new_call_name = f'{call_name}{self.suffix}'.lower()",
-           "            new_call_name = f'{call_name}{self.suffix}'", expect=None),     # still a CaseInsensitiveDict at the call site
-    Mutant('suffix-call-name-raw+plain-dict', 'loki/transformations/dependency.py', "            new_call_name = f'{call_name}{self.suffix}'.lower()",
-           "            new_call_name = f'{call_name}{self.suffix}'", expect=('R5', 'new_call_name'),
+    Mutant('suffix-call-name-raw', 'loki/transformations/dependency.py', "            new_call_name = f'{call_name}{self.suffix}'.lower()\n            if new_call_name in new_dependencies:",
+           "            new_call_name = f'{call_name}{self.suffix}'\n            if new_call_name in new_dependencies:", expect=None),     # still a CaseInsensitiveDict at the call site
+    Mutant('suffix-call-name-raw+plain-dict', 'loki/transformations/dependency.py', "            new_call_name = f'{call_name}{self.suffix}'.lower()\n            if new_call_name in new_dependencies:",
+           "            new_call_name = f'{call_name}{self.suffix}'\n            if new_call_name in new_dependencies:", expect=('R5', 'new_call_name'),
            also=[('loki/transformations/dependency.py', "new_dependencies_dic = CaseInsensitiveDict((new_item.local_name, new_item)\n                                for new_item in new_dependencies)",
                   "new_dependencies_dic = {dep.local_name: dep for dep in new_dependencies}")]),
     Mutant('repair-hash', IT, "        return hash(self.name)", "        return hash(self.name.lower())", expect=None),
